@@ -13,6 +13,13 @@ HARNESSES = _borrow(__file__, "C01", ["meta_write_to_file"])
 HARNESSES.append(dict(name="default_comp", file="default_comp.c", label="proved", timeout=300,
                       unwind=10, fp={"destroy": "probe_destroy"},
                       must_have=["C13.default_comp.function_of_build"]))
-FUNCTIONS = ["sqfs_meta_write_write_to_file (via harness/C01)", "compressor_get_default"]
+HARNESSES.append(dict(name="tarball_diag", file="tarball_diag.c", label="bounded(entries <= 1)",
+                      timeout=400, include_dirs=["bin/tar2sqfs/src"], unwind=4, malloc_fail=True,
+                      flags=["--memory-leak-check"],
+                      pre_instrument_flags=["--replace-calls", "set_root_attribs:stub_set_root_attribs",
+                                            "--replace-calls", "create_node_and_repack_data:stub_create_node"],
+                      fp={"next": "env_next", "read_link": "env_read_link", "*": "env_never"},
+                      must_have=["C13.tarball.diagnostic"]))
+FUNCTIONS = ["process_tarball", "sqfs_meta_write_write_to_file (via harness/C01)", "compressor_get_default"]
 TRUSTED = []
 ASSUMPTIONS = []
